@@ -166,6 +166,10 @@ pub struct Decision<'a> {
     pub in_op: &'a [bool],
     /// workers in a futile spin (disabled until someone writes the location they wait for)
     pub spinners: &'a [usize],
+    /// workers that could run but are only re-reading unchanged locations (a wait loop on plain loads), with the number of
+    /// times each has been run in that state; they are left out of `enabled` unless nothing else can run, and a chooser may
+    /// still pick one of them
+    pub waiting: &'a [(usize, usize)],
 }
 
 pub trait Chooser {
@@ -279,6 +283,12 @@ pub fn run_opts<'a, R: Send + 'a>(threads: Vec<Vec<OpFn<'a, R>>>, chooser: &mut 
         let mut open_ops: Vec<Option<usize>> = vec![None; n]; // index into exec.ops
         let mut current: Option<usize> = None;
         let mut step = 0usize;
+        // read-only streak of every worker: the addresses it has read (loads, failed compare-exchanges) since its last
+        // write / lock event / operation boundary, the step at which the streak began, and how often the worker was run
+        // although it was only re-reading unchanged locations (see `soft` below)
+        let ro: std::cell::RefCell<Vec<Vec<usize>>> = std::cell::RefCell::new(vec![vec![]; n]);
+        let ro_start: std::cell::RefCell<Vec<usize>> = std::cell::RefCell::new(vec![0; n]);
+        let forced: std::cell::RefCell<Vec<usize>> = std::cell::RefCell::new(vec![0; n]);
 
         let absorb = |w: usize, exec: &mut Exec<R>, locks: &mut HashMap<usize, (Option<usize>, Vec<usize>)>, last_write: &mut HashMap<usize, usize>, last_ev: &Vec<Option<usize>>| {
             // notes produced since the worker's last announcement
@@ -289,16 +299,38 @@ pub fn run_opts<'a, R: Send + 'a>(threads: Vec<Vec<OpFn<'a, R>>>, chooser: &mut 
                         if let Some(ti) = last_ev[w] {
                             exec.trace[ti].outcome = Some(o);
                             let wrote = match e.kind {
-                                Kind::Store | Kind::Swap | Kind::FetchAdd | Kind::FetchSub => true,
-                                Kind::CasWeak => o.ok,
+                                Kind::Store | Kind::Swap | Kind::FetchAdd | Kind::FetchSub | Kind::FetchRmw => true,
+                                Kind::CasWeak | Kind::Cas => o.ok,
                                 _ => false,
                             };
+                            // a successful non-blocking acquisition enters the lock table here (before anybody else runs)
+                            if o.ok {
+                                match e.kind {
+                                    Kind::MutexTryLock | Kind::RwTryWrite => locks.entry(e.addr).or_insert((None, vec![])).0 = Some(w),
+                                    Kind::RwTryRead => locks.entry(e.addr).or_insert((None, vec![])).1.push(w),
+                                    _ => {}
+                                }
+                            }
                             if wrote {
                                 last_write.insert(e.addr, exec.trace[ti].step);
+                            }
+                            // (an injected spurious compare-exchange failure says nothing about waiting: it ends the streak)
+                            let read_only = matches!(e.kind, Kind::Load) || (matches!(e.kind, Kind::CasWeak | Kind::Cas) && !o.ok && !exec.trace[ti].spurious);
+                            if read_only {
+                                let mut r = ro.borrow_mut();
+                                if r[w].is_empty() {
+                                    ro_start.borrow_mut()[w] = exec.trace[ti].step;
+                                }
+                                r[w].push(e.addr);
+                            } else {
+                                ro.borrow_mut()[w].clear();
+                                forced.borrow_mut()[w] = 0;
                             }
                         }
                     }
                     Note::Unlock(e) => {
+                        ro.borrow_mut()[w].clear();
+                        forced.borrow_mut()[w] = 0;
                         let st = exec.trace.last().map_or(0, |t| t.step);
                         exec.trace.push(TraceEv { step: st, thread: w, ann: Ann::Sync(e), outcome: None, spurious: false, op: None });
                         let ent = locks.entry(e.addr).or_insert((None, vec![]));
@@ -326,6 +358,9 @@ pub fn run_opts<'a, R: Send + 'a>(threads: Vec<Vec<OpFn<'a, R>>>, chooser: &mut 
             let mut enabled = vec![];
             let mut spinners = vec![];
             let mut blocked = vec![];
+            // workers that are about to re-read a location they have already read in a streak of reads during which nobody
+            // wrote any of the locations read: a wait loop on plain loads. They are only run when nothing else can run.
+            let mut soft: Vec<usize> = vec![];
             let others_unfinished = (0..n.saturating_sub(1)).any(|w| pending[w].is_some());
             for w in 0..n {
                 let Some(a) = &pending[w] else { continue };
@@ -349,14 +384,14 @@ pub fn run_opts<'a, R: Send + 'a>(threads: Vec<Vec<OpFn<'a, R>>>, chooser: &mut 
                             }
                             free
                         }
-                        Kind::CasWeak => {
+                        Kind::CasWeak | Kind::Cas => {
                             // futile spin: identical to this thread's previous event, which failed for real,
                             // and nobody has written the location since
                             let mut futile = false;
                             if let Some(ti) = last_ev[w] {
                                 let p = &exec.trace[ti];
                                 if let (Ann::Sync(pe), Some(po)) = (&p.ann, &p.outcome) {
-                                    if pe.kind == Kind::CasWeak
+                                    if pe.kind == e.kind
                                         && pe.addr == e.addr
                                         && pe.expected == e.expected
                                         && pe.operand == e.operand
@@ -373,6 +408,15 @@ pub fn run_opts<'a, R: Send + 'a>(threads: Vec<Vec<OpFn<'a, R>>>, chooser: &mut 
                             }
                             !futile
                         }
+                        Kind::Load => {
+                            let r = ro.borrow();
+                            let start = ro_start.borrow()[w];
+                            let waiting = r[w].contains(&e.addr) && r[w].iter().all(|a| last_write.get(a).map_or(true, |s| *s < start));
+                            if waiting {
+                                soft.push(w);
+                            }
+                            !waiting
+                        }
                         _ => true,
                     },
                     _ => true,
@@ -384,6 +428,20 @@ pub fn run_opts<'a, R: Send + 'a>(threads: Vec<Vec<OpFn<'a, R>>>, chooser: &mut 
             if unfinished.is_empty() {
                 break;
             }
+            if enabled.is_empty() && !soft.is_empty() {
+                // nothing else can run: let the waiting readers go round once more; a reader that has gone round 3000 times
+                // this way is waiting for a write that nobody is left to make
+                let mut f = forced.borrow_mut();
+                if soft.iter().all(|w| f[*w] >= 3000) {
+                    spinners.extend(soft.iter().copied());
+                    exec.verdict = ExecVerdict::Stuck { spinners, blocked };
+                    break;
+                }
+                for w in &soft {
+                    f[*w] += 1;
+                }
+                enabled = soft.clone();
+            }
             if enabled.is_empty() {
                 exec.verdict = ExecVerdict::Stuck { spinners, blocked };
                 break;
@@ -392,14 +450,19 @@ pub fn run_opts<'a, R: Send + 'a>(threads: Vec<Vec<OpFn<'a, R>>>, chooser: &mut 
                 exec.verdict = ExecVerdict::StepLimit;
                 break;
             }
-            let d = Decision { step, enabled: &enabled, current, pending: &pending, sync_counts: &sync_counts, ops_done: &ops_done, in_op: &in_op, spinners: &spinners };
+            let waiting: Vec<(usize, usize)> = soft.iter().map(|w| (*w, forced.borrow()[*w])).collect();
+            let d = Decision { step, enabled: &enabled, current, pending: &pending, sync_counts: &sync_counts, ops_done: &ops_done, in_op: &in_op, spinners: &spinners, waiting: &waiting };
             let mut w = chooser.choose(&d);
             if w == HALT {
                 exec.verdict = ExecVerdict::Halted;
                 break;
             }
             if !enabled.contains(&w) {
-                w = enabled[0];
+                if soft.contains(&w) {
+                    forced.borrow_mut()[w] += 1;
+                } else {
+                    w = enabled[0];
+                }
             }
             let mut spurious = false;
             if let Some(Ann::Sync(e)) = &pending[w] {
@@ -421,12 +484,16 @@ pub fn run_opts<'a, R: Send + 'a>(threads: Vec<Vec<OpFn<'a, R>>>, chooser: &mut 
             let a = pending[w].take().unwrap();
             match &a {
                 Ann::OpStart(i) => {
+                    ro.borrow_mut()[w].clear();
+                    forced.borrow_mut()[w] = 0;
                     in_op[w] = true;
                     cur_op[w] = Some(*i);
                     exec.ops.push(OpRec { thread: w, idx: *i, invoke: step, response: None, result: None });
                     open_ops[w] = Some(exec.ops.len() - 1);
                 }
                 Ann::OpEnd(_) => {
+                    ro.borrow_mut()[w].clear();
+                    forced.borrow_mut()[w] = 0;
                     in_op[w] = false;
                     if let Some(oi) = open_ops[w].take() {
                         exec.ops[oi].response = Some(step);
